@@ -200,6 +200,12 @@ class FakeEio(_FakeEioBase):
 class FakeAEio(_FakeEioBase):
     async_mode = 'asgi'
 
+    async def get_session(self, eio_sid):
+        return _FakeEioBase.get_session(self, eio_sid)
+
+    async def save_session(self, eio_sid, session):
+        return _FakeEioBase.save_session(self, eio_sid, session)
+
     async def send(self, eio_sid, data):
         from . import miniloop
         await miniloop.checkpoint('eio.send')
